@@ -14,13 +14,15 @@ def confirms():
     return out
 
 def evals():
+    """full evaluations (all 20 checks) updated by later targeted re-evaluations (after checks were strengthened)"""
     out = {}
-    for f in sorted(glob.glob(os.path.join(SRC, 'eval_C*_m*.log')), key=os.path.getmtime):
+    files = glob.glob(os.path.join(SRC, 'eval_C*_m*.log')) + glob.glob(os.path.join(SRC, 'reeval_C*_m*.log'))
+    for f in sorted(files, key=os.path.getmtime):
         m = re.search(r'eval_(C\d\d)_(m\d)\.log', f)
         txt = open(f).read()
         j = [l for l in txt.splitlines() if l.startswith('{"C')]
         if j:
-            out[(m.group(1), m.group(2))] = json.loads(j[-1])
+            out.setdefault((m.group(1), m.group(2)), {}).update(json.loads(j[-1]))
     return out
 
 def main():
